@@ -38,6 +38,7 @@ THEOREMS = [
     "O2P.Gate.filter_defunct_sound",
     "O2P.Gate.post_process_sound",
     "O2P.Gate.post_process_admits",
+    "O2P.Gate.post_process_checked",
 ]
 
 
@@ -145,9 +146,20 @@ def post_part(ctx: Ctx, items: list[dict[str, Any]], seeds: list[int]) -> None:
         if "error" in w:
             ctx.broken_ties.append(f"model driver: {w['error']}")
         else:
-            ctx.tick("raw_tree_meets_theorem_hypotheses" if (w["wf"] and w["nd"] and w["names"])
-                     else "raw_tree_outside_theorem_hypotheses_" + ("wf" if not w["wf"] else "names"))
-    for (it, res, hs), lr in zip(lmeta, lres):
+            w["all"] = bool(w["wf"] and w["nd"] and w["names"] and w.get("produces"))
+            ctx.tick("raw_tree_meets_theorem_hypotheses" if w["all"]
+                     else "raw_tree_outside_theorem_hypotheses_" + ("wf" if not w["wf"] else "produces"
+                                                                    if not w.get("produces") else "names"))
+    for k, ((it, res, hs), lr) in enumerate(zip(lmeta, lres)):
+        # post_process_checked: when the executable hypotheses hold for the raw tree, every outcome of the model
+        # provably produces every observed set; the judge (another semantics, tied by sem_admits) must agree on every
+        # outcome without a silent leaf — a disagreement means the model, the judge or the driver is wrong
+        if k < len(wres) and wres[k].get("all") and "error" not in lr:
+            for o, vd in zip(lr["outcomes"], lr.get("verdicts", [])):
+                if "error" not in vd and not vd["sound"] and "null" not in json.dumps(o):
+                    ctx.broken_ties.append(f"post_process_checked holds for the raw tree {res['raw']} but the judge "
+                                           f"rejects the model outcome {o}")
+                    break
         ctx.tick("post_raw_trees")
         if "error" in lr:
             ctx.broken_ties.append(f"model driver: {lr['error']}")
